@@ -30,9 +30,31 @@ class Sched:
         self.seqlock = threading.Lock()
         self.rng = random.Random(seed)
         self.problems = []
+        self.roles = {}  # thread ident -> role, learnt at the first hook point of a thread (or set by the driver)
 
     # ---- called from hooked threads ------------------------------------------------------
+    def register(self, role):
+        self.roles[threading.get_ident()] = role
+
+    def observed(self):
+        """An OBSERVATION of shared state (queue.empty()/full()/qsize()) by a hooked thread, called after the value was
+        taken: a pre-emption point.  Forced mode: the thread parks ("observe") until the controller needs its next
+        action, so everything the other thread does in between happens after the observation (stale reads show).
+        Free mode: yield / sleep at random.  Threads that never passed a hook point (the controller) are not parked."""
+        role = self.roles.get(threading.get_ident())
+        if role is None:
+            return
+        if not self.forced:
+            r = self.rng.random()
+            if r < 0.4:
+                time.sleep(0)
+            elif r < 0.7:
+                time.sleep(self.rng.random() * 2e-3)
+            return
+        self.arrive(role, "observe", None)
+
     def arrive(self, role, kind, arg=None):
+        self.roles.setdefault(threading.get_ident(), role)
         if not self.forced:
             r = self.rng.random()
             if r < 0.3:
@@ -116,7 +138,7 @@ class SchedQueue(queue.Queue):
         kind, arg = self._tag(item)
         s.arrive("prod", kind, arg)
         if s.forced:
-            if self.maxsize > 0 and self.qsize() >= self.maxsize:
+            if self.maxsize > 0 and queue.Queue.qsize(self) >= self.maxsize:
                 s.problems.append("put granted while the real queue is full (maxsize=%d)" % self.maxsize)
                 s.abort()
                 raise SchedAbort()
@@ -127,7 +149,7 @@ class SchedQueue(queue.Queue):
         s = self.sched
         s.arrive("cons", "get", None)
         if s.forced:
-            if self.qsize() == 0:
+            if queue.Queue.qsize(self) == 0:
                 s.problems.append("get granted while the real queue is empty")
                 s.abort()
                 raise SchedAbort()
@@ -145,6 +167,22 @@ class SchedQueue(queue.Queue):
         kind, arg = self._tag(item)
         self.sched.log("get", -1 if kind == "eos" else arg, locked=True)
         return item
+
+    # observations of the queue state are pre-emption points for hooked threads (not for the controller)
+    def empty(self):
+        v = super().empty()
+        self.sched.observed()
+        return v
+
+    def full(self):
+        v = super().full()
+        self.sched.observed()
+        return v
+
+    def qsize(self):
+        v = super().qsize()
+        self.sched.observed()
+        return v
 
     def content(self):
         with self.mutex:
